@@ -704,11 +704,12 @@ class C09(Monitor):
                 avail.append("named")
                 if m != "apply":
                     avail += ["nc0", "ncneg"]
-                if live_names:
-                    avail.append("dupname")
+                avail += [f"dup:{i}" for i in range(len(live_names))]
             for n in range(0, len(avail) + 1):
                 for sub in itertools.combinations(avail, n):
                     if "nc0" in sub and "ncneg" in sub:
+                        continue
+                    if sum(1 for x in sub if x.startswith("dup:")) > 1:
                         continue
                     alts.append((m, sub))
         alts += [("set_size_neg", ()), ("ctor_neg", ()), ("locklock", ()), ("unlockunlock", ())]
@@ -789,10 +790,13 @@ class C09(Monitor):
         func = plain if "plainfunc" in sub else w._make_func(tag, "plain", [])
         pulled0 = w.pulled[tag]
         kw = {}
-        if "named" in sub and "dupname" not in sub:
+        dup = [x for x in sub if x.startswith("dup:")]
+        if "named" in sub and not dup:
             kw["group_name"] = "rejname"
-        if "dupname" in sub:
-            kw["group_name"] = [r.group for t, r in w.reqs.items() if r.p == p and t not in w.group_cancelled][0]
+        if dup:
+            live = [r.group for t, r in w.reqs.items() if r.p == p and t not in w.group_cancelled]
+            kw["group_name"] = live[int(dup[0][4:])]
+            sub = tuple(x for x in sub if not x.startswith("dup:")) + ("dupname",)
         nc = 0 if "nc0" in sub else (-1 if "ncneg" in sub else 1)
         from .poolworld import Req
 
@@ -944,6 +948,11 @@ class C11(Monitor):
 
     def sample(self, kind, key, tag):
         w = self.w
+        if len(self.next) < len(w.pools):
+            self.next += [0] * (len(w.pools) - len(self.next))
+        names = [str(w.pools[p]) for p in pools_of(w) if p not in w.closed_pools]
+        if len(set(names)) != len(names):
+            self.v("two pools in use have the same name", names)
         if w.bad_names:
             self.v("task name not of the form <pool>_Task-<id>", w.bad_names[0])
         if w.dup_keys:
@@ -973,13 +982,35 @@ class C12(Monitor):
 
     PROP = "C12"
 
+    def __init__(self, world):
+        super().__init__(world)
+        self.failed_at_call = {}
+
+    def __canon__(self):
+        return sorted((k, sorted(v)) for k, v in self.failed_at_call.items())
+
+    def failed_known(self, p):
+        """failed tasks (coroutine raised) that the pool still remembers as ended"""
+        w = self.w
+        return {k for k, h in w.exited.items() if k[0] == p and h == "exc" and w.classify(k) == "ended"}
+
+    def before_op(self, i, op):
+        w = self.w
+        name, pos, opts = split_op(op)
+        if name in ("flush", "gac"):
+            self.failed_at_call[(i, w.pcs[i] - 1)] = self.failed_known(opts.get("p", 0))
+
     def driver_done(self, i, op, out):
         w = self.w
         name, pos, opts = split_op(op)
         if name not in ("flush", "gac"):
             return
         re_ = bool(pos and pos[0])
+        known = self.failed_at_call.pop((i, w.pcs[i] - 1), set())
         if out[0] == "ok":
+            # the exception of a failed task that was gathered is what the call raises (unless collected)
+            if not re_ and known and not self.cb_raising():
+                self.v(f"{name}() returned normally although a task it gathered had raised", sorted(known))
             return
         if re_:
             self.v(f"{name}(return_exceptions=True) raised", out)
@@ -990,6 +1021,14 @@ class C12(Monitor):
             return
         if tag[0] == "worker" and not any(h == "exc" for k, h in w.exited.items() if w.started[k][0] == tag[1]):
             self.v(f"{name}() raised a worker error although no worker of that request failed", out)
+
+    def cb_raising(self):
+        w = self.w
+        kinds = {w.scen.get("ecb", "none"), w.scen.get("ccb", "none")}
+        for r in w.reqs.values():
+            if r.opts:
+                kinds |= {r.opts.get("ecb", "none"), r.opts.get("ccb", "none")}
+        return bool(kinds & {"raise", "araise"})
 
 
 class C13(Monitor):
